@@ -404,14 +404,16 @@ where
         S: GGSWInfos,
     {
         let res_dft: usize = self.bytes_of_vec_znx_dft((s_infos.rank() + 1).into(), s_infos.size());
+        // the product is applied to the temporary a - b, which is as long as the longer of the two operands
+        let tmp_c_infos: GLWELayout = GLWELayout {
+            n: s_infos.n(),
+            base2k: s_infos.base2k(),
+            k: res_a_infos.max_k().max(res_b_infos.max_k()),
+            rank: s_infos.rank(),
+        };
         let mut tot = res_dft
-            + (self.glwe_external_product_internal_tmp_bytes(res_a_infos, res_b_infos, s_infos)
-                + GLWE::<Vec<u8>>::bytes_of_from_infos(&GLWELayout {
-                    n: s_infos.n(),
-                    base2k: s_infos.base2k(),
-                    k: res_a_infos.max_k().max(res_b_infos.max_k()),
-                    rank: s_infos.rank(),
-                }))
+            + (self.glwe_external_product_internal_tmp_bytes(s_infos, &tmp_c_infos, s_infos)
+                + GLWE::<Vec<u8>>::bytes_of_from_infos(&tmp_c_infos))
             .max(self.vec_znx_big_normalize_tmp_bytes());
 
         if res_a_infos.base2k() != s_infos.base2k() {
